@@ -15,6 +15,18 @@ inductive Derivable (G : IG) : String → List String → Prop
   | dup {a b c : String} {σ : List String} :
       IRule.dup a b c ∈ G.rules → Derivable G b σ → Derivable G c σ → Derivable G a σ
 
+/-- `Gen G A σ w`: `A` with index stack `σ` derives the terminal word `w`
+(an end rule on "epsilon" contributes the empty word) -/
+inductive Gen (G : IG) : String → List String → List String → Prop
+  | end_ {a t : String} {σ : List String} :
+      IRule.end_ a t ∈ G.rules → Gen G a σ (if t = "epsilon" then [] else [t])
+  | prod {a b f : String} {σ w : List String} :
+      IRule.prod a b f ∈ G.rules → Gen G b (f :: σ) w → Gen G a σ w
+  | cons {f a b : String} {σ w : List String} :
+      IRule.cons f a b ∈ G.rules → Gen G b σ w → Gen G a (f :: σ) w
+  | dup {a b c : String} {σ u v : List String} :
+      IRule.dup a b c ∈ G.rules → Gen G b σ u → Gen G c σ v → Gen G a σ (u ++ v)
+
 /-- some terminal word is derivable from the start variable with the empty stack -/
 def NonEmpty (G : IG) : Prop := G.Derivable G.start []
 
